@@ -149,14 +149,26 @@ bool splinetable<Alloc>::read_fits_mem(void* buffer, size_t buffer_size){
 			fits_report_error(stderr, error);
 		}
 	} cleanup(fits);
+	
 	return(read_fits_core(fits, "memory 'file'"));
 }
 	
 template<typename Alloc>
 bool splinetable<Alloc>::read_fits_core(fitsfile* fits, const std::string& filePath){
+	//Whatever goes wrong, do not leave a half-built table behind: its storage
+	//goes back to the allocator and the object is empty (and reusable) again.
+	try{
+		read_fits_data(fits, filePath);
+	}catch(...){
+		release();
+		throw;
+	}
+	return (true);
+}
+	
+template<typename Alloc>
+void splinetable<Alloc>::read_fits_data(fitsfile* fits, const std::string& filePath){
 	int error = 0;
-	//if (error != 0)
-	//	throw std::runtime_error("Failed to move to HDU 1 in "+filePath);
 	
 	//Set the HDU and check its type
 	{
@@ -187,10 +199,9 @@ bool splinetable<Alloc>::read_fits_core(fitsfile* fits, const std::string& fileP
 		fits_get_hdrspace(fits, &nkeys, NULL, &error);
 		if (nkeys > 0) {
 			char key[FLEN_KEYWORD], value[FLEN_VALUE];
-			int keylen, valuelen;
 			
 			// figure out how many generic keys there are
-			naux = 0;
+			uint32_t count = 0;
 			for (int j = 1 ; j-1 < nkeys; j++) {
 				error = 0;
 				fits_read_keyn(fits, j, key, value, NULL, &error);
@@ -198,11 +209,12 @@ bool splinetable<Alloc>::read_fits_core(fitsfile* fits, const std::string& fileP
 					continue;
 				if (reservedFitsKeyword(key))
 					continue;
-				naux++;
+				count++;
 			}
 			
-			aux = allocate<char_ptr_ptr>(naux);
-			std::fill(aux,aux+naux,nullptr);
+			aux = allocate<char_ptr_ptr>(count);
+			std::fill(aux,aux+count,nullptr);
+			naux = count;
 			
 			for (unsigned i = 0, j = 1 ; (i < naux) && (j-1 < unsigned(nkeys)); j++) {
 				error = 0;
@@ -212,33 +224,30 @@ bool splinetable<Alloc>::read_fits_core(fitsfile* fits, const std::string& fileP
 				if (reservedFitsKeyword(key))
 					continue;
 				
-				keylen = strlen(key) + 1;
-				valuelen = strlen(value) + 1;
-				aux[i] = allocate<char_ptr>(2);
-				aux[i][0] = aux[i][1] = NULL;
-				aux[i][0] = allocate<char>(keylen);
-				aux[i][1] = allocate<char>(valuelen);
-				std::copy(key,key+keylen,aux[i][0]);
 				//remove stupid quotes mandated by FITS, but not removed by cfitsio on reading
 				//Note that we do not attempt to remove whitespace, because we cannot 
 				//distinguish whitespace included by the user and whitespace pointlessly
 				//added by FITS.
-				if(valuelen>1 && value[0]=='\''){
-					if(valuelen>2 && value[valuelen-2]=='\''){ //remove a trailing quote also
-						std::copy(value+1,value+valuelen-2,aux[i][1]);
-						aux[i][1][valuelen-3]='\0';
-					}
-					else{ //just remove an opening quote
-						std::copy(value+1,value+valuelen-1,aux[i][1]);
-						aux[i][1][valuelen-2]='\0';
-					}
+				std::string stored(value);
+				if(!stored.empty() && stored[0]=='\''){
+					size_t last=stored.size();
+					if(last>1 && stored[last-1]=='\'') //remove a trailing quote also
+						last--;
+					stored=stored.substr(1,last-1);
 				}
-				else{
-					std::copy(value,value+valuelen,aux[i][1]);
-					aux[i][1][valuelen-1]='\0';
-				}
+				
+				size_t keylen = strlen(key) + 1;
+				size_t valuelen = stored.size() + 1;
+				aux[i] = allocate<char_ptr>(2);
+				aux[i][0] = aux[i][1] = NULL;
+				aux[i][0] = allocate<char>(keylen);
+				std::copy(key,key+keylen,aux[i][0]);
+				aux[i][1] = allocate<char>(valuelen);
+				std::copy(stored.begin(),stored.end(),aux[i][1]);
+				aux[i][1][valuelen-1]='\0';
 				i++;
 			}
+			error = 0;
 		} else {
 			aux = NULL;
 			naux = 0;
@@ -265,9 +274,6 @@ bool splinetable<Alloc>::read_fits_core(fitsfile* fits, const std::string& fileP
 		std::fill(order+1,order+ndim,order[0]);
 	}
 	
-	if (error != 0)
-		return (error);
-	
 	//read the table periods
 	periods = allocate<double>(ndim);
 	for (unsigned i = 0; i < ndim; i++) {
@@ -286,8 +292,10 @@ bool splinetable<Alloc>::read_fits_core(fitsfile* fits, const std::string& fileP
 	//arrays which don't depend on the orders or numbers of knots before the
 	//ones which do
 	knots = allocate<double_ptr>(ndim);
+	std::fill(knots,knots+ndim,nullptr);
 	nknots = allocate<uint64_t>(ndim);
 	extents = allocate<double_ptr>(ndim);
+	extents[0] = nullptr;
 	extents[0] = allocate<double>(2*ndim);
 	
 	//Read the coefficient table
@@ -321,10 +329,8 @@ bool splinetable<Alloc>::read_fits_core(fitsfile* fits, const std::string& fileP
 	fits_read_pix(fits, TFLOAT, fpixel.data(), ncoeffs, NULL,
 				  &coefficients[0], NULL, &error);
 	
-	if (error != 0){
-		//destroy
+	if (error != 0)
 		throw std::runtime_error("Error reading table coefficients");
-	}
 	
 	//Read the knot vectors, which are stored one each in extension HDUs
 	for (unsigned i = 0; i < ndim; i++) {
@@ -380,8 +386,6 @@ bool splinetable<Alloc>::read_fits_core(fitsfile* fits, const std::string& fileP
 	
 	if(error!=0)
 		throw std::runtime_error("Error reading "+filePath+": Error "+std::to_string(error));
-	
-	return (error==0);
 }
 
 template<typename Alloc>
